@@ -6,7 +6,7 @@ from diff import *
 
 
 def main(pid, level, programs_fn, rule, samples, assumptions, quick_backends=(("A", ()), ("C", ())),
-         thorough_backends=(("A", ()), ("C", ()), ("A", ("nogc",))), timeout=900, workers=8, seeds=(None,), extra=None, post=None):
+         thorough_backends=(("A", ()), ("C", ()), ("A", ("nogc",))), timeout=900, workers=8, seeds=(None,), extra=None, post=None, canon=None):
     ap = argparse.ArgumentParser()
     ap.add_argument("--id", default=pid); ap.add_argument("--tier", default=os.environ.get("VERIF_TIER", "quick")); ap.add_argument("--replay")
     a = ap.parse_args()
@@ -20,7 +20,7 @@ def main(pid, level, programs_fn, rule, samples, assumptions, quick_backends=(("
     if a.replay:
         want = (json.load(open(a.replay)).get("replay") or {}).get("program")
         progs = [p for p in progs if p.name == want] or progs
-    results = pmap(lambda p: diff_prog(pid, p, timeout=timeout), progs, workers=workers)
+    results = pmap(lambda p: diff_prog(pid, p, timeout=timeout, canon=canon), progs, workers=workers)
     nprog, ncases, ndist = report_diff(rep, pid, results)
     rep.coverage.update(evaluations=ncases, distinct_nontrivial=ndist, programs=nprog, exhaustive=True,
                         backends=[b[0] + ("+" + ",".join(b[1]) if b[1] else "") for b in backends], samples=samples, rule=rule)
